@@ -23,7 +23,10 @@ def sum_of_lengths(c):
     t = c
     if t[0] == "field" and t[3] == "1":
         t = t[1]
-    return t[0] == "bin" and t[1] == "AddWithOverflow" and is_len(t[2]) and is_len(t[3])
+    small = lambda x: x[0] == "const" and isinstance(x[2], int) and 0 <= x[2] < (1 << 32)
+    # (a Vec / slice length is at most isize::MAX, so adding another length or a small constant cannot wrap usize)
+    return t[0] == "bin" and t[1] == "AddWithOverflow" and (is_len(t[2]) or small(t[2])) and (is_len(t[3]) or small(t[3])) and \
+        (is_len(t[2]) or is_len(t[3]))
 
 
 def range_item_bound(src, depth=0, env=None):
@@ -126,6 +129,14 @@ def ob_exact(n):
     return lambda ctx, f, v, blocks: exact_length(ctx.prog, f, set(blocks), arg(1), const_n=n) is not None
 
 
+def prefixed_nonempty(vec):
+    """the vector removed from had an identity commitment put in front earlier in the same call (any spelling): somewhere in its
+    term there is a sequence whose flattening starts with a one-element identity part"""
+    from ..seq import flatten
+    from .c10 import identity_prefixed
+    return mentions(vec, lambda s: s[0] in ("mut", "call", "agg") and identity_prefixed(lambda r: True)(s))
+
+
 def ob_commit(ctx, f, v, blocks):
     # preprocess(1, ..) and preprocess pushes one pair per iteration of 0..num_nonces
     ok = all(mentions(a, lambda s: is_call(s, name="preprocess") and const(1)(s[2][0]))
@@ -216,8 +227,7 @@ REVIEWED = {
         const(0)(v.call_args(b)[1]) and mentions(v.call_args(b)[0], lambda s: is_call(s, name="generate_secret_shares")) for b in bl)),
     ("keys::refresh::refresh_dkg_part1", "call:Vec::remove"): (1, "commitment produced by generate_secret_polynomial in the same call: >= 2 coefficients", lambda ctx, f, v, bl: all(const(0)(v.call_args(b)[1]) for b in bl)),
     ("keys::refresh::refresh_dkg_part2", "call:Vec::remove"): (1, "the identity coefficient was prepended to this vector earlier in the same call: non-empty", lambda ctx, f, v, bl: all(
-        const(0)(v.call_args(b)[1]) and mentions(v.call_args(b)[0], lambda s: is_call(s, name="chain") or
-                                                 (s[0] == "op" and s[1] == "insert")) for b in bl)),
+        const(0)(v.call_args(b)[1]) and prefixed_nonempty(v.call_args(b)[0]) for b in bl)),
     ("keys::repairable::repair_share_part1", "assert:overflow:Sub"): (1, "helpers.len() - 1: helpers contains the caller's identifier (non-empty) / has >= min_signers elements", ob_sep(
         cmp_fact("contains", arg(1), fld(arg(2), "identifier"), False))),
     # --- scalar_mul.rs (allows itself indexing): arithmetic relations between naf_length, num_limbs and pos
